@@ -1,7 +1,8 @@
 """C19 - client spec bunching preserves order and limits.
 
-Target: hailtop.batch_client.aioclient.Batch._create_bunches (+ SpecBytes.__init__ / SpecBytes.n_bytes, and the
-filters in _submit_job_group_bunches / _submit_job_bunches).
+Target: hailtop.batch_client.aioclient.Batch._create_bunches (+ class SpecBytes: real __init__ then real n_bytes getter, the
+filters in _submit_job_group_bunches / _submit_job_bunches, and the call site Batch._submit / Batch.submit: every sender gets
+the bunches THIS call computed with THIS call's limits).
 
 Top-level postcondition, from the property text, stated over boundaries (ghost array st, ghost count m):
   the result has m bunches; 0 = st[0] < st[1] < ... < st[m] = n where n = #job_group_specs + #job_specs;
@@ -646,4 +647,6 @@ def build(ctx):
     ctx.assume('orjson.dumps is an uninterpreted function of the spec (only the length of its result matters)')
     ctx.assume('class SpecBytes is modelled by a constructor UF whose axioms are exactly the postconditions proved for SpecBytes.__init__ and SpecBytes.n_bytes')
     ctx.assume('P and W are definitional spec functions (prefix sums of the byte sizes); their defining axioms are assumed, being a definition by recursion on naturals')
+    ctx.assume('bytes.decode(utf-8) is an uninterpreted text whose number of characters is between 0 and the number of bytes (SpecBytes class contract)')
+    ctx.assume('Batch._submit / Batch.submit: the call-site clause is decided by def-use on the AST (single unconditional binding, plain copies); aliasing through containers or attributes is rejected, not analysed')
     ctx.assume('meta-lemma L5: a list of adjacent slices [st[j], st[j+1]) with st[0]=0, st[m]=n concatenates to the original list')
